@@ -1,9 +1,9 @@
 (** C14 — RAG chunking is a faithful, budget-respecting partition.
-    Only statements here; proofs live in theories/C14/Proofs.v.
+    Only statements here; proofs live in theories/C14/Proofs.v and Full.v.
     [count]/[additive] are the injected TokenCounter and its answer to
     [is_additive_over_whitespace_join]; [AdditiveContract] is the trait's documented
     contract, demanded only of a counter that answers [true]. *)
-From OxVerif Require Import Base.Util C14.Model C14.Proofs.
+From OxVerif Require Import Base.Util C14.Model C14.Proofs C14.Full.
 
 (** sequential chunker: every element exactly once and in order; a split element is
     replaced by fragments whose words re-join to the element's words *)
@@ -117,6 +117,91 @@ Check c14_graph_budget_refuted :
   exists es, ~ Forall (budget_ok count_chars4 2) (chunk_graph count_chars4 false (wit_cfg 2) es).
 Print Assumptions c14_graph_budget_refuted.
 
+(** UNCONDITIONAL (no contract on the counter, not even purity beyond being a Gallina function): the
+    partition and heading clauses of the sequential chunker hold for every counter, every declared
+    additivity — including a counter that lies about being additive; only c14_chunk_budget needs the
+    contract *)
+Theorem c14_chunk_partition_unconditional : forall count additive c es,
+  Covers es (flat (chunk_seq count additive c es)).
+Proof. intros. exact (proj1 (chunk_seq_unconditional count additive c es)). Qed.
+Check c14_chunk_partition_unconditional : forall count additive c es,
+  Covers es (flat (chunk_seq count additive c es)).
+Print Assumptions c14_chunk_partition_unconditional.
+
+Theorem c14_chunk_heading_unconditional : forall count additive c es,
+  Forall (heading_ok (propagate c)) (chunk_seq count additive c es).
+Proof. intros. exact (proj2 (chunk_seq_unconditional count additive c es)). Qed.
+Check c14_chunk_heading_unconditional : forall count additive c es,
+  Forall (heading_ok (propagate c)) (chunk_seq count additive c es).
+Print Assumptions c14_chunk_heading_unconditional.
+
+(** section-graph chunker, heading.  [sections_spec] cuts the input at titles (a title owns the elements
+    up to the next title; written without the parent vector), [section_group_ok (te, kids) chs] :=
+    Covers (te :: kids) (flat chs) /\ chs <> [] /\ every chunk of chs is non-empty and has
+    heading = title_heading te (the title's parent_heading, else its text).
+    For well-sectioned input the output is: chunks of the preamble (sequential rule: heading of the first
+    element), then one group per section of the input, in order, each a faithful partition of its section
+    whose chunks all carry that section's heading.  No contract on the counter. *)
+Theorem c14_graph_heading : forall count additive c es, well_sectioned es = true ->
+  exists pre secs,
+    chunk_graph count additive c es = pre ++ concat secs /\
+    Covers (preamble es) (flat pre) /\ Forall (heading_ok (propagate c)) pre /\
+    Forall2 section_group_ok (sections_spec es) secs.
+Proof. exact graph_heading. Qed.
+Check c14_graph_heading : forall count additive c es, well_sectioned es = true ->
+  exists pre secs,
+    chunk_graph count additive c es = pre ++ concat secs /\
+    Covers (preamble es) (flat pre) /\ Forall (heading_ok (propagate c)) pre /\
+    Forall2 section_group_ok (sections_spec es) secs.
+Print Assumptions c14_graph_heading.
+
+(** the spec sections tile the input (so the groups above account for every element) *)
+Theorem c14_sections_spec_tile : forall es,
+  preamble es ++ flat_map (fun s : elem * list elem => fst s :: snd s) (sections_spec es) = es.
+Proof. exact sections_spec_tile. Qed.
+Check c14_sections_spec_tile : forall es,
+  preamble es ++ flat_map (fun s : elem * list elem => fst s :: snd s) (sections_spec es) = es.
+Print Assumptions c14_sections_spec_tile.
+
+(** without well-sectionedness the same grouping holds for the sections ElementGraph::build computes *)
+Theorem c14_graph_groups : forall count additive c es,
+  exists pre secs,
+    chunk_graph count additive c es = pre ++ concat secs /\
+    Covers (preamble es) (flat pre) /\ Forall (heading_ok (propagate c)) pre /\
+    Forall2 section_group_ok (map (sec_of (parents_from 0 [] es) es) (titles_of es)) secs.
+Proof. exact graph_groups. Qed.
+Check c14_graph_groups : forall count additive c es,
+  exists pre secs,
+    chunk_graph count additive c es = pre ++ concat secs /\
+    Covers (preamble es) (flat pre) /\ Forall (heading_ok (propagate c)) pre /\
+    Forall2 section_group_ok (map (sec_of (parents_from 0 [] es) es) (titles_of es)) secs.
+Print Assumptions c14_graph_groups.
+
+(** title-consistent input (each title's parent_heading absent or its own text): every element of a
+    section chunk lies in the section the chunk's heading names ([own_heading x] = the heading a title
+    announces / a non-title's parent_heading), preamble chunks contain no title ... *)
+Theorem c14_graph_heading_shared : forall count additive c es, title_consistent es = true ->
+  exists pre secs,
+    chunk_graph count additive c es = pre ++ concat secs /\
+    Forall (fun ch => heading_ok (propagate c) ch /\ Forall (fun x => is_title x = false) (celems ch)) pre /\
+    Forall (Forall (fun ch => celems ch <> [] /\ shares_heading ch)) secs.
+Proof. exact graph_heading_shared. Qed.
+Check c14_graph_heading_shared : forall count additive c es, title_consistent es = true ->
+  exists pre secs,
+    chunk_graph count additive c es = pre ++ concat secs /\
+    Forall (fun ch => heading_ok (propagate c) ch /\ Forall (fun x => is_title x = false) (celems ch)) pre /\
+    Forall (Forall (fun ch => celems ch <> [] /\ shares_heading ch)) secs.
+Print Assumptions c14_graph_heading_shared.
+
+(** ... and the executable heading predicate that the correspondence evaluates on the implementation's
+    output (demanded exactly for title-consistent input, see case_code) is a theorem of the model *)
+Theorem c14_graph_heading_b : forall count additive c es, title_consistent es = true ->
+  forallb (heading_graph_b (propagate c)) (chunk_graph count additive c es) = true.
+Proof. exact graph_heading_b. Qed.
+Check c14_graph_heading_b : forall count additive c es, title_consistent es = true ->
+  forallb (heading_graph_b (propagate c)) (chunk_graph count additive c es) = true.
+Print Assumptions c14_graph_heading_b.
+
 (** the executable partition predicate used on the implementation's output is sound *)
 Theorem c14_part_b_sound : forall es fl, part_b es fl = true -> Covers es fl.
 Proof. exact part_b_sound. Qed.
@@ -137,3 +222,12 @@ Example c14_nonvacuous :
   = [(1%nat, false, 1); (2%nat, false, 3); (1%nat, false, 3); (1%nat, true, 4)]
   /\ well_sectioned es = true.
 Proof. vm_compute. split; reflexivity. Qed.
+Example c14_lying_counter_outside_contract : ~ AdditiveContract count_chars4 true.
+Proof. exact lying_counter_outside_contract. Qed.
+Example c14_graph_heading_nonvacuous :
+  well_sectioned ex_es = true /\ title_consistent ex_es = true /\
+  map (fun s => length (snd s)) (sections_spec ex_es) = [3%nat; 1%nat] /\
+  map (fun ch => (length (celems ch), heading ch, oversized ch)) (chunk_graph count_words true (wit_cfg 3) ex_es)
+  = [(1%nat, None, false); (1%nat, Some [65], false); (2%nat, Some [65], false); (1%nat, Some [65], false);
+     (1%nat, Some [65], true); (2%nat, Some [66], false)].
+Proof. exact graph_heading_nonvacuous. Qed.
